@@ -46,6 +46,19 @@ def execute(case, monitors, iter_cap=400):
                 for m in w.monitors:
                     if hasattr(m, "on_run_end"):
                         m.on_run_end(inc, s, n_total, "first")
+                if case.get("post_ops"):
+                    # the user reads the results inside the same process (still under the seams)
+                    s.posterior(resample=True)
+                    s.posterior()
+                    s.results()
+                    s.evidence()
+                if kind == "extra_samples":
+                    for _ in range(case.get("n_extra", 2)):
+                        s.sample()
+                    w.probe("manual_sample_after_run")
+                    for m in w.monitors:
+                        if hasattr(m, "on_readonly"):
+                            m.on_readonly(inc, s, "after_sample")
                 if kind == "rerun":
                     for m in w.monitors:
                         if hasattr(m, "on_phase"):
@@ -78,6 +91,27 @@ def execute(case, monitors, iter_cap=400):
             info["iters"].append(inc.n_commits)
             if inc.rng.extremes_fired:
                 w.bump("fault.fired.rng.extreme", inc.rng.extremes_fired)
+        if kind == "load_only" and info["completed"]:
+            # a new process loads one of the checkpoints into a fresh sampler and only reads from it
+            cks = [p for p in w.fs.files("/simfs/out") if p.endswith(".state")]
+            which = case.get("load_which", "final")
+            ck = "/simfs/out/ps_final.state" if which == "final" else (latest_checkpoint(w.fs) if which == "latest" else (sorted(cks, key=lambda p: (len(p), p))[0] if cks else None))
+            info["resume_from"] = ck
+            with w.incarnation(rng_record=case.get("rng_record", 0)) as inc:
+                s = inc.new_sampler()
+                info["sampler"] = s
+                try:
+                    s.load_state(ck)
+                    w.probe("loaded_without_running")
+                    for m in w.monitors:
+                        if hasattr(m, "on_readonly"):
+                            m.on_readonly(inc, s, "loaded")
+                except SimHang:
+                    raise
+                except Exception as e:
+                    info["exc"] = f"{type(e).__name__}: {str(e)[:160]}"
+                    info["exc_type"] = type(e).__name__
+                    forget(e)
         if kind == "resume_final" and info["completed"]:
             # the run finished and left checkpoints; a new process resumes from the final (or the newest periodic) one,
             # possibly asking for fewer effective samples than already collected (zero further iterations)
